@@ -16,11 +16,12 @@ ASSUMPTIONS = ["all text (names, symbols, doc, attribute keys and string values)
                "backslash, so that Python's f-string printing, json.dumps and the model's naive printer agree; the canonical "
                "form of schemas whose names need JSON escapes is outside the model",
                "name is a string, namespace a string or null, symbols and fields are lists, size is an int, no duplicate keys",
-               "the same-encoding clause of the statement (bytes written under the schema decode under its canonical form) "
-               "needs the codec model and is not part of this check (left to the codec properties)"]
-PARTIAL = ["C13_same_encoding: proved for the schema component (C13_same_encoding_schema) and, given equal erased tables, "
-           "for decoding (C13_same_encoding_partial); the equality of the erased tables of the two parses is evaluated on "
-           "every generated schema (same_encoding_check), not proved",
+               "the same-encoding clause is a theorem about the codec model (C13_same_encoding); on the implementation it is "
+               "exercised on (schema, cosmetic rewrite) pairs with generated data (thm:same-encoding-impl)"]
+PARTIAL = ["C13_same_encoding is proved for all values (typed / wire / dec of model/Codec.v through model/Bridge.v) for two raw "
+           "schemas in simple_raw with the same canonical JSON (pcf_json) parsed from scratch; the canonical forms are compared "
+           "as JSON values, not as printed text (injectivity of the printer is not proved); that the bridge is defined on the "
+           "parses is a hypothesis (validated by corr:bridge on every run)",
            "C13_spec / C13_cosmetic / C13_fixed_point are stated for the class simple_raw (field names are strings, fixed "
            "sizes are integers, input not marked as already parsed) and C13_fixed_point for ns_closed (no null-namespace "
            "type nested in a non-null namespace; outside it the statement is false: C13_fixed_point_refuted, known "
@@ -176,6 +177,7 @@ def run(ctx):
                                     ("null-namespace-type-nested-in-namespaced-record" if null_ns_nested else "other"))
     run_piecewise(ctx)
     run_bridge(ctx, [s for s, s2, e in cases[:(400 if ctx.quick() else 6000)]])
+    run_same_encoding(ctx, [(s, s2, e) for s, s2, e in cases if e][:(200 if ctx.quick() else 6000)])
     ctx.notes["generator"] = stats
     ctx.notes["cosmetic_edits"] = edit_hist
     ctx.notes["rejected_schemas"] = both_raise
@@ -186,6 +188,9 @@ def run(ctx):
         ctx.sample(dict(schema=s, rewrite=s2, edits=edits, canonical=impl_canon(s)))
 
 
+SAME_IMPORTS = ("From Coq Require Import String.\n"
+                "From FA Require Import model.Base model.Value model.Schema model.Json model.Parse model.Canon model.Bridge "
+                "proofs.SameEncodingProofs.\n")
 BRIDGE_IMPORTS = ("From Coq Require Import String.\n"
                   "From FA Require Import model.Base model.Value model.Schema model.Json model.Parse model.Canon model.Bridge.\n")
 
@@ -221,6 +226,70 @@ def run_bridge(ctx, schemas):
             if same != "true":
                 ctx.violation("thm:same-encoding-instance", case(s), impl=None, model=same,
                               signature="C13:model:same-encoding-check-false", found_input=False)
+
+
+def run_same_encoding(ctx, pairs):
+    """thm:same-encoding-impl (C13_same_encoding on the implementation): a schema and its cosmetic rewrite have the same
+    canonical form, so they must accept the same data, write the same bytes and read each other's bytes to the same
+    value.  Model side: same_canon_check (all hypotheses of the theorem, computed) on the same pairs."""
+    import io, random
+    import fastavro
+    from fastavro.schema import parse_schema, to_parsing_canonical_form
+    from .. import gen
+    exprs = ["show_bool (same_canon_hyps %s %s)" % (sg.to_coq(a), sg.to_coq(b)) for a, b, e in pairs]
+    hyps = core.coq_eval(exprs, SAME_IMPORTS, ctx.workdir, tag="sameenc", shard=90 if ctx.quick() else 300)
+    data_rng = random.Random(ctx.seed + 5)
+    holds = 0
+    for (a, b, edits), h in zip(pairs, hyps):
+        key = json.dumps([a, b], sort_keys=True)
+        ctx.count("thm:same-encoding-impl", key, nontrivial=nontrivial(a))
+        try:
+            na, nb = {}, {}
+            pa, pb = parse_schema(copy.deepcopy(a), na), parse_schema(copy.deepcopy(b), nb)
+            if to_parsing_canonical_form(pa) != to_parsing_canonical_form(pb):
+                continue                      # reported by pred:cosmetic
+        except Exception:
+            continue
+        if h == "true":
+            holds += 1
+        else:
+            continue                          # outside the theorem's hypotheses (counted in the notes)
+        if "default" in edits or "logicalType" in edits:
+            continue          # generated data may omit defaulted fields (filling them in is elaboration, not encoding); a
+                              # logicalType changes the Python-level value (datetime vs int), not the bytes: layers above the codec
+        dg = gen.DataGen(data_rng, dict(na), hints=False)
+        for _ in range(2):
+            try:
+                d = dg.datum(pa)
+            except Exception:
+                break
+
+            def enc(schema):
+                fo = io.BytesIO(); fastavro.schemaless_writer(fo, schema, d); return fo.getvalue()
+
+            def attempt(fn):
+                try:
+                    return ("ok", fn())
+                except Exception as ex:
+                    return ("raised", type(ex).__name__)
+            wa, wb = attempt(lambda: enc(pa)), attempt(lambda: enc(pb))
+            ok = wa == wb
+            ra = rb = None
+            if ok and wa[0] == "ok":
+                ra = attempt(lambda: repr(fastavro.schemaless_reader(io.BytesIO(wa[1]), pa)))
+                rb = attempt(lambda: repr(fastavro.schemaless_reader(io.BytesIO(wa[1]), pb)))
+                ok = ra == rb
+            if not ok:
+                ctx.violation("thm:same-encoding-impl", dict(schema=a, schema_json=json.dumps(a), rewrite_json=json.dumps(b), edits=edits,
+                                                             datum=repr(d)),
+                              impl=dict(write_a=str(wa)[:200], write_b=str(wb)[:200], read_a=str(ra)[:200], read_b=str(rb)[:200]),
+                              model="equal canonical forms: same typed values, same bytes, same decoding (C13_same_encoding)",
+                              signature="C13:schemaless_writer/reader:same-canonical-form:different-encoding")
+                break
+    ctx.notes["same_encoding_pairs"] = dict(pairs=len(pairs), theorem_hypotheses_hold=holds)
+    if pairs and not holds:
+        ctx.violation("thm:same-encoding-impl", dict(note="no generated pair satisfies the hypotheses of C13_same_encoding"), impl="-", model="-",
+                      signature="C13:harness:same-encoding-theorem-vacuous-on-generated-pairs", found_input=False)
 
 
 def run_piecewise(ctx):
